@@ -134,7 +134,9 @@ PatsC == {<<"L", "P">>}
 PatsD == {<<"L", "P", "L">>, <<"W", "O", "W">>}
 
 NoStates == pc < 0       \* CONSTRAINT of the run that only prints
-Init == \E c \in Universe : Start(c, FALSE)
+\* (enumerated pattern set by pattern set: TLC need not normalise the union)
+Init == \E pats \in PatSets : \E c \in CasesFor(pats) :
+            WellFormed(c) /\ Start(c, FALSE)
 Spec == Init /\ [][Next]_vars
 
 ASSUME Emit => \A p \in Programs : PrintT(<<"PROG", ToJson(p)>>)
